@@ -146,9 +146,9 @@ func (c *ConfSpec) toConf() mapConf {
 
 // Decoded is what the real pack / compressutil code makes of a handed-over pack.
 type Decoded struct {
-	Raw    []byte   // payload after decompression when flagged
-	Encs   [][]byte // re-encoding of each decoded record
-	Err    string   // non-empty: the payload does not decode to RecordCount records exactly
+	Raw    []byte              // payload after decompression when flagged
+	Recs   []*pack.LogSinkPack // the decoded records
+	Err    string              // non-empty: the payload does not decode to RecordCount records exactly
 	Zipped bool
 	Count  int
 }
@@ -183,7 +183,7 @@ func decodePack(records []byte, count int, status byte) *Decoded {
 			if !ok {
 				panic(fmt.Sprintf("record %d is not a LogSinkPack", i))
 			}
-			d.Encs = append(d.Encs, pack.ToBytesPack(ls))
+			d.Recs = append(d.Recs, ls)
 		}
 		if in.Available() != 0 {
 			panic(fmt.Sprintf("%d bytes left after %d records", in.Available(), count))
@@ -211,21 +211,59 @@ type finding struct {
 
 type evalCtx struct {
 	recs   map[int]*Rec
-	byEnc  map[string]int
 	byPtr  map[*pack.LogSinkPack]int
 	finds  []finding
 	isProp bool
 }
 
 func newEvalCtx(specs []RecSpec) *evalCtx {
-	e := &evalCtx{recs: map[int]*Rec{}, byEnc: map[string]int{}, byPtr: map[*pack.LogSinkPack]int{}}
+	e := &evalCtx{recs: map[int]*Rec{}, byPtr: map[*pack.LogSinkPack]int{}}
 	for _, s := range specs {
 		r := NewRec(s)
 		e.recs[s.ID] = r
-		e.byEnc[string(r.Enc)] = s.ID
-		e.byPtr[r.P] = s.ID
+		if r.P != nil {
+			e.byPtr[r.P] = s.ID
+		}
 	}
 	return e
+}
+
+func (e *evalCtx) goodOf(ids []int) []int {
+	var out []int
+	for _, id := range ids {
+		if !e.recs[id].Bad {
+			out = append(out, id)
+		}
+	}
+	return out
+}
+
+// handIn returns the record as it is handed to the sender now.  With ReuseOf the caller recycles the
+// pack object of an earlier record that the sender has already serialised: every field is overwritten
+// but TagHash keeps whatever the earlier serialisation left in it (the computed hash, or the caller's).
+// The unchanged code then writes that stale hash followed by the NEW tags — which is what the record
+// must decode back to.
+func (e *evalCtx) handIn(id int, serialised map[int]bool) *Rec {
+	r := e.recs[id]
+	if r.Spec.ReuseOf == 0 || r.Bad || r.recycled {
+		return r
+	}
+	old, ok := e.recs[r.Spec.ReuseOf]
+	if !ok || old.P == nil || old.Bad || !serialised[r.Spec.ReuseOf] || old.taken {
+		return r
+	}
+	old.taken = true
+	r.recycled = true
+	obj := old.P
+	stale := obj.TagHash
+	r.Spec.fill(obj)
+	obj.TagHash = stale
+	delete(e.byPtr, r.P)
+	r.P = obj
+	e.byPtr[obj] = id
+	r.Want.TagHash = carriedHash(stale, r.Want.Tags)
+	r.Enc = refEncode(r.Want)
+	return r
 }
 
 func (e *evalCtx) prop(key, f string, a ...interface{}) {
@@ -258,12 +296,20 @@ func (e *evalCtx) checkPack(h *Handed, site string, zipMin int64, idx int) ([]in
 		e.prop(site+":undecodable", "pack #%d (count %d, status %d, %d bytes): %s", idx, h.Count, h.Status, len(records), d.Err)
 		return nil, d
 	}
+	// every decoded record is one of the records handed in (identified by its Oid, unique per id) and
+	// carries exactly the fields it was handed in with — compared field by field, tags in full,
+	// against values computed from the spec alone
 	var ids []int
-	for i, enc := range d.Encs {
-		id, ok := e.byEnc[string(enc)]
-		if !ok {
-			e.prop(site+":foreign-record", "pack #%d: decoded record %d is none of the records handed to the sender", idx, i)
+	for i, ls := range d.Recs {
+		id := int(ls.Oid) / 31
+		r, ok := e.recs[id]
+		if !ok || int(ls.Oid)%31 != 0 || r.Bad {
+			e.prop(site+":foreign-record", "pack #%d: decoded record %d (Oid %d) is none of the records handed to the sender", idx, i, ls.Oid)
 			return nil, d
+		}
+		if df := diffWant(wantOfDecoded(ls), r.Want); df != "" {
+			sp, _ := json.Marshal(r.Spec)
+			e.prop(site+":record-altered", "pack #%d: record %s does not decode back to what was handed in — %s", idx, sp, df)
 		}
 		ids = append(ids, id)
 	}
@@ -363,12 +409,15 @@ func runDet(c *Case, e *evalCtx) *detResult {
 	var dropped []int // ids reported through the Failed callback (when installed)
 	if c.FailedCb {
 		snd.Queue.Failed = func(v interface{}) {
-			if p, ok := v.(*pack.LogSinkPack); ok {
+			if p, ok := v.(*pack.LogSinkPack); ok && p != nil {
 				dropped = append(dropped, e.byPtr[p])
+			} else {
+				dropped = append(dropped, -1) // a nil pack / an element of another type
 			}
 		}
 	}
-	refused := map[int]bool{} // ids the bounded queue must refuse (queue full at the time of Add)
+	refused := map[int]bool{}    // ids the bounded queue must refuse (queue full at the time of Add)
+	serialised := map[int]bool{} // ids whose pack object has been through WritePack (may be recycled by the caller)
 	fifoBroken := false
 	res := &detResult{}
 	var fifo []int // mirror of the queue: ids accepted and not yet dequeued
@@ -389,7 +438,8 @@ func runDet(c *Case, e *evalCtx) *detResult {
 		cnt0, len0, first0 := snd.BufferedForVerif()
 		np0 := cl.n()
 		var out vh.Outcome
-		appended := -1 // id of the record passed to Append by this op
+		appended := -1     // id of the (serialisable) record passed to Append by this op
+		failedAppend := -1 // id of the unserialisable record passed to Append / skipped by the loop
 		flushOnly := false
 		switch o.K {
 		case "add":
@@ -403,7 +453,14 @@ func runDet(c *Case, e *evalCtx) *detResult {
 				fifoBroken = true
 				e.prop("queue:size", "op %d: %d records should be queued, the queue holds %d", i, len(fifo), q0)
 			}
-			out = vh.Guard(func() { snd.Add(e.recs[o.R.ID].P) })
+			rec := e.handIn(o.R.ID, serialised)
+			out = vh.Guard(func() {
+				if rec.Other != nil {
+					snd.Queue.Put(rec.Other) // an element that is not a *LogSinkPack
+				} else {
+					snd.Add(rec.P)
+				}
+			})
 			q1 := snd.Queue.Size()
 			if accept {
 				fifo = append(fifo, o.R.ID)
@@ -417,13 +474,18 @@ func runDet(c *Case, e *evalCtx) *detResult {
 					fifoBroken = true
 					e.prop("Add:accepted-above-capacity", "op %d: record %d added to a full queue (capacity %d): queue size %d -> %d", i, o.R.ID, capacity, q0, q1)
 				}
-				if c.FailedCb && (len(dropped) != nd+1 || dropped[nd] != o.R.ID) {
+				if c.FailedCb && (len(dropped) != nd+1 || (dropped[nd] != o.R.ID && dropped[nd] != -1)) {
 					e.prop("Add:failed-callback", "op %d: record %d refused by the full queue but the Failed callback was not called with it", i, o.R.ID)
 				}
 			}
 		case "append":
-			appended = o.R.ID
-			out = vh.Guard(func() { snd.Append(e.recs[o.R.ID].P) })
+			rec := e.handIn(o.R.ID, serialised)
+			if rec.Bad {
+				failedAppend = o.R.ID
+			} else {
+				appended = o.R.ID
+			}
+			out = vh.Guard(func() { snd.Append(rec.P) })
 		case "step":
 			var rc int
 			out = vh.Guard(func() { rc = snd.StepForVerif() })
@@ -432,7 +494,11 @@ func runDet(c *Case, e *evalCtx) *detResult {
 				if len(fifo) == 0 {
 					e.prop("run:dequeued-from-empty", "op %d: a record was dequeued although none was queued", i)
 				} else {
-					appended = fifo[0]
+					if e.recs[fifo[0]].Bad {
+						failedAppend = fifo[0]
+					} else {
+						appended = fifo[0]
+					}
 					fifo = fifo[1:]
 				}
 			case 0:
@@ -462,11 +528,14 @@ func runDet(c *Case, e *evalCtx) *detResult {
 						e.prop("stop:queued-records-lost", "op %d: stop with %d records queued (%s): the loop returned leaving %d of them in the queue, never emitted",
 							i, len(q), idsStr(q), left)
 						// what was drained (a prefix, if anything)
-						fed = append(fed, q[:len(q)-left]...)
+						fed = append(fed, e.goodOf(q[:len(q)-left])...)
 						fifo = q[len(q)-left:]
 					} else {
-						fed = append(fed, q...)
+						fed = append(fed, e.goodOf(q)...)
 						fifo = nil
+					}
+					for _, id := range q[:len(q)-left] {
+						serialised[id] = !e.recs[id].Bad
 					}
 					flushOnly = true
 				}
@@ -475,11 +544,14 @@ func runDet(c *Case, e *evalCtx) *detResult {
 			var ps []*pack.LogSinkPack
 			var want []int
 			for _, r := range o.Rs {
-				ps = append(ps, e.recs[r.ID].P)
+				ps = append(ps, e.handIn(r.ID, serialised).P)
 				want = append(want, r.ID)
 			}
 			dcalls = append(dcalls, dcall{i, want})
 			out = vh.Guard(func() { snd.SendDirect(ps) })
+			for _, r := range o.Rs {
+				serialised[r.ID] = true
+			}
 		case "config":
 			out = vh.Guard(func() { snd.ApplyConfig(o.C.toConf()) })
 			got := fromVS(snd.SettingsForVerif())
@@ -504,6 +576,18 @@ func runDet(c *Case, e *evalCtx) *detResult {
 		}
 		// flush conditions, evaluated on the implementation's own counters
 		cnt1, len1, _ := snd.BufferedForVerif()
+		if failedAppend >= 0 {
+			// a record whose serialisation fails is dropped (Append recovers / the loop skips it) and
+			// must leave the batch exactly as it was
+			if c1, l1, f1 := snd.BufferedForVerif(); c1 != cnt0 || l1 != len0 || f1 != first0 || cl.n() != np0 {
+				sp, _ := json.Marshal(e.recs[failedAppend].Spec)
+				e.prop("Append:failed-record-changed-state", "op %d: record %s cannot be serialised and is dropped, but the batch changed: count %d -> %d, bytes %d -> %d, first time %d -> %d, packs handed over %d",
+					i, sp, cnt0, c1, len0, l1, first0, f1, cl.n()-np0)
+			}
+		}
+		if appended >= 0 {
+			serialised[appended] = true
+		}
 		if appended >= 0 && o.K == "step" && cl.n() == np0 && len1-len0 != len(e.recs[appended].Enc) && !fifoBroken {
 			fifoBroken = true
 			e.prop("queue:not-fifo", "op %d: the oldest accepted record is %d (%d bytes) but the record the loop dequeued and appended has %d bytes: the queue lost or reordered an accepted record",
